@@ -178,9 +178,17 @@ structure BuiltOk (w : World) : Prop where
   noAnc : ∀ p : Nat, (w.sim p).trigAnc = []
   /-- `input_delays` is a dict: one entry per predecessor -/
   nodup : ∀ q : Nat, ((w.sim q).inputDelays.map (·.1)).Nodup
+  /-- pushed connections: started target, pair's shape, covered by the target's `input_delays` -/
+  pushOk : ∀ p, p < w.sims.length → ∀ e ∈ (w.sim p).push,
+    e.2.1 < w.sims.length ∧ HasShape e.2.2.1 (w.decl p).group (w.decl e.2.1).group ∧
+    ∃ d0, lookupTI (w.sim e.2.1).inputDelays p = some d0 ∧ d0.tiers ≤ e.2.2.1.tiers
+  /-- cached (pulled) connections: started source, pair's shape, covered by the own `input_delays` -/
+  pullOk : ∀ p, p < w.sims.length → ∀ e ∈ (w.sim p).pulled,
+    e.1 < w.sims.length ∧ HasShape e.2.1 (w.decl e.1).group (w.decl p).group ∧
+    ∃ d0, lookupTI (w.sim p).inputDelays e.1 = some d0 ∧ d0.tiers ≤ e.2.1.tiers
 
 theorem builtOk_empty : BuiltOk {} := by
-  refine ⟨rfl, ?_, ?_, ?_, ?_, ?_, ?_, ?_⟩ <;> intro p <;> simp [World.sim]
+  refine ⟨rfl, ?_, ?_, ?_, ?_, ?_, ?_, ?_, ?_, ?_⟩ <;> intro p <;> simp [World.sim]
 
 /-! ### start -/
 
@@ -212,7 +220,23 @@ theorem builtOk_start {w : World} (h : BuiltOk w) (d : SimDecl) : BuiltOk (w.sta
       have hge : w.sims.length + 1 ≤ p := by omega
       rw [List.getElem?_eq_none (by simpa using hge)]
       rfl
-  refine ⟨by simp [World.start, h.len], ?_, ?_, ?_, ?_, ?_, ?_, ?_⟩
+  refine ⟨by simp [World.start, h.len], ?_, ?_, ?_, ?_, ?_, ?_, ?_, ?_, ?_⟩
+  rotate_right 2
+  · intro p hp e he
+    rcases hcase p hp with hp' | rfl
+    · rw [sim_start_lt w d hp'] at he
+      obtain ⟨h1, h2, d0, h3, h4⟩ := h.pushOk p hp' e he
+      refine ⟨by rw [hlen]; exact Nat.lt_succ_of_lt h1, ?_, d0, ?_, h4⟩
+      · rw [hdecl _ hp', hdecl _ h1]; exact h2
+      · rw [sim_start_lt w d h1]; exact h3
+    · rw [sim_start_new] at he; simp at he
+  · intro p hp e he
+    rcases hcase p hp with hp' | rfl
+    · rw [sim_start_lt w d hp'] at he ⊢
+      obtain ⟨h1, h2, d0, h3, h4⟩ := h.pullOk p hp' e he
+      refine ⟨by rw [hlen]; exact Nat.lt_succ_of_lt h1, ?_, d0, h3, h4⟩
+      rw [hdecl _ hp', hdecl _ h1]; exact h2
+    · rw [sim_start_new] at he; simp at he
   · intro p hp
     rcases hcase p hp with hp | rfl
     · rw [sim_start_lt w d hp, hdecl p hp]; exact h.depth p hp
@@ -269,13 +293,24 @@ theorem builtOk_initEv {w : World} (h : BuiltOk w) (p : Sid) (t : Nat) : BuiltOk
       ((w.setSim p { w.sim p with next0 := [ofWorld (w.sim p).depth t] }).sim q).triggers = (w.sim q).triggers ∧
       ((w.setSim p { w.sim p with next0 := [ofWorld (w.sim p).depth t] }).sim q).depth = (w.sim q).depth ∧
       ((w.setSim p { w.sim p with next0 := [ofWorld (w.sim p).depth t] }).sim q).outReq = (w.sim q).outReq ∧
-      ((w.setSim p { w.sim p with next0 := [ofWorld (w.sim p).depth t] }).sim q).trigAnc = (w.sim q).trigAnc := by
+      ((w.setSim p { w.sim p with next0 := [ofWorld (w.sim p).depth t] }).sim q).trigAnc = (w.sim q).trigAnc ∧
+      ((w.setSim p { w.sim p with next0 := [ofWorld (w.sim p).depth t] }).sim q).push = (w.sim q).push ∧
+      ((w.setSim p { w.sim p with next0 := [ofWorld (w.sim p).depth t] }).sim q).pulled = (w.sim q).pulled := by
     intro q
     rw [hs q]
     split
-    · rename_i hq; rw [hq.1]; exact ⟨rfl, rfl, rfl, rfl, rfl⟩
-    · exact ⟨rfl, rfl, rfl, rfl, rfl⟩
-  refine ⟨by simpa using h.len, ?_, ?_, ?_, ?_, ?_, ?_, fun q => by rw [(hfield q).1]; exact h.nodup q⟩
+    · rename_i hq; rw [hq.1]; exact ⟨rfl, rfl, rfl, rfl, rfl, rfl, rfl⟩
+    · exact ⟨rfl, rfl, rfl, rfl, rfl, rfl, rfl⟩
+  refine ⟨by simpa using h.len, ?_, ?_, ?_, ?_, ?_, ?_, fun q => by rw [(hfield q).1]; exact h.nodup q, ?_, ?_⟩
+  rotate_right 2
+  · intro q hq e he
+    rw [(hfield q).2.2.2.2.2.1] at he
+    obtain ⟨h1, h2, d0, h3, h4⟩ := h.pushOk q (by simpa using hq) e he
+    exact ⟨by simpa using h1, h2, d0, by rw [(hfield e.2.1).1]; exact h3, h4⟩
+  · intro q hq e he
+    rw [(hfield q).2.2.2.2.2.2] at he
+    obtain ⟨h1, h2, d0, h3, h4⟩ := h.pullOk q (by simpa using hq) e he
+    exact ⟨by simpa using h1, h2, d0, by rw [(hfield q).1]; exact h3, h4⟩
   · intro q hq; rw [(hfield q).2.2.1]; exact h.depth q (by simpa using hq)
   · intro q hq e he; rw [(hfield q).1] at he; simpa using h.inShape q (by simpa using hq) e he
   · intro q hq tr htr
@@ -288,7 +323,7 @@ theorem builtOk_initEv {w : World} (h : BuiltOk w) (p : Sid) (t : Nat) : BuiltOk
     · right; right; rename_i hq'; rw [hq'.1]; exact ⟨t, rfl⟩
     · exact h.next0 q (by simpa using hq)
   · intro q hq; rw [(hfield q).2.2.2.1, (hfield q).2.1]; exact h.trigReq q (by simpa using hq)
-  · intro q; rw [(hfield q).2.2.2.2]; exact h.noAnc q
+  · intro q; rw [(hfield q).2.2.2.2.1]; exact h.noAnc q
 
 /-! ### one accepted attribute pair / one async registration, abstractly -/
 
@@ -304,6 +339,10 @@ structure Step (w w' : World) (src dst : Sid) (port : Port) (delay dmin : TI) (t
   trig : ∀ p, (w'.sim p).triggers = if p = src ∧ trg = true then (w.sim p).triggers ++ [(port, dst, delay)] else (w.sim p).triggers
   req : ∀ p, (w.sim p).outReq ≠ [] → (w'.sim p).outReq ≠ []
   reqSrc : trg = true → (w'.sim src).outReq ≠ []
+  push : ∀ p, (w'.sim p).push = (w.sim p).push ∨
+    (p = src ∧ ∃ dport, (w'.sim p).push = (w.sim p).push ++ [(port, dst, delay, dport)])
+  pulled : ∀ p, (w'.sim p).pulled = (w.sim p).pulled ∨
+    (p = dst ∧ ∃ dport, (w'.sim p).pulled = (w.sim p).pulled ++ [(src, delay, port, dport)])
 
 theorem builtOk_step {w w' : World} {src dst : Sid} {port : Port} {delay dmin : TI} {trg : Bool}
     (h : BuiltOk w) (hs : src < w.sims.length) (hd : dst < w.sims.length)
@@ -313,11 +352,56 @@ theorem builtOk_step {w w' : World} {src dst : Sid} {port : Port} {delay dmin : 
     (hold : ∀ old, lookupTI (w.sim dst).inputDelays src = some old → dmin.tiers ≤ old.tiers)
     (st : Step w w' src dst port delay dmin trg) : BuiltOk w' := by
   have hdecl : ∀ p, w'.decl p = w.decl p := fun p => by simp [World.decl, st.decls]
-  refine ⟨by rw [st.decls, st.len]; exact h.len, ?_, ?_, ?_, ?_, ?_, ?_, ?_⟩
-  rotate_right
+  -- a covered delay stays covered: the pair's entry can only decrease
+  have hlk : ∀ (a b : Sid) (d : TI), (∃ d0, lookupTI (w.sim b).inputDelays a = some d0 ∧ d0.tiers ≤ d.tiers) →
+      ∃ d0, lookupTI (w'.sim b).inputDelays a = some d0 ∧ d0.tiers ≤ d.tiers := by
+    intro a b d ⟨d0, h3, h4⟩
+    rw [st.inD]
+    split
+    · rename_i hbd
+      by_cases has : a = src
+      · subst has
+        refine ⟨dmin, lookupTI_insert_same _ _ _, ?_⟩
+        rw [hbd] at h3
+        exact TT.le_trans (hold d0 h3) h4
+      · exact ⟨d0, by rw [lookupTI_insert_ne _ _ _ _ has]; exact h3, h4⟩
+    · exact ⟨d0, h3, h4⟩
+  have hnew : ∃ d0, lookupTI (w'.sim dst).inputDelays src = some d0 ∧ d0.tiers ≤ delay.tiers := by
+    refine ⟨dmin, ?_, hle⟩
+    rw [st.inD]; simp only [if_true]; exact lookupTI_insert_same _ _ _
+  refine ⟨by rw [st.decls, st.len]; exact h.len, ?_, ?_, ?_, ?_, ?_, ?_, ?_, ?_, ?_⟩
+  rotate_right 3
   · intro q; rw [st.inD]; split
     · exact nodup_insertTI _ _ (h.nodup q)
     · exact h.nodup q
+  · intro p hp e he
+    rw [st.len] at hp ⊢
+    rw [hdecl, hdecl]
+    rcases st.push p with hsame | ⟨hps, dport, happ⟩
+    · rw [hsame] at he
+      obtain ⟨h1, h2, h3⟩ := h.pushOk p hp e he
+      exact ⟨h1, h2, hlk _ _ _ h3⟩
+    · rw [happ] at he
+      rcases List.mem_append.mp he with he | he
+      · obtain ⟨h1, h2, h3⟩ := h.pushOk p hp e he
+        exact ⟨h1, h2, hlk _ _ _ h3⟩
+      · have : e = (port, dst, delay, dport) := by simpa using he
+        subst this
+        exact ⟨hd, hps ▸ hdelay, hps ▸ hnew⟩
+  · intro p hp e he
+    rw [st.len] at hp ⊢
+    rw [hdecl, hdecl]
+    rcases st.pulled p with hsame | ⟨hpd, dport, happ⟩
+    · rw [hsame] at he
+      obtain ⟨h1, h2, h3⟩ := h.pullOk p hp e he
+      exact ⟨h1, h2, hlk _ _ _ h3⟩
+    · rw [happ] at he
+      rcases List.mem_append.mp he with he | he
+      · obtain ⟨h1, h2, h3⟩ := h.pullOk p hp e he
+        exact ⟨h1, h2, hlk _ _ _ h3⟩
+      · have : e = (src, delay, port, dport) := by simpa using he
+        subst this
+        exact ⟨hs, hpd ▸ hdelay, hpd ▸ hnew⟩
   · intro p hp; rw [st.depth, hdecl]; exact h.depth p (st.len ▸ hp)
   · intro q hq e he
     rw [st.len] at hq ⊢
@@ -450,6 +534,22 @@ theorem srcUpd_fields (w : World) (c : ConnectCall) (sattr dattr : Nat) (delay p
   simp only
   cases c.init.lookup sattr <;> simp only <;> (repeat' split) <;> simp_all
 
+theorem dstUpd_pp (w : World) (c : ConnectCall) (sattr dattr : Nat) (delay dmin : TI) :
+    (dstUpd w c sattr dattr delay dmin).push = (w.sim c.dst).push ∧
+    ((dstUpd w c sattr dattr delay dmin).pulled = (w.sim c.dst).pulled ∨
+     (dstUpd w c sattr dattr delay dmin).pulled = (w.sim c.dst).pulled ++ [(c.src, delay, (c.seid, sattr), (c.deid, dattr))]) := by
+  unfold dstUpd
+  simp only
+  cases c.init.lookup sattr <;> simp only <;> (repeat' split) <;> simp
+
+theorem srcUpd_pp (w : World) (c : ConnectCall) (sattr dattr : Nat) (delay plain : TI) (s0 : SimCfg) :
+    (srcUpd w c sattr dattr delay plain s0).pulled = s0.pulled ∧
+    ((srcUpd w c sattr dattr delay plain s0).push = s0.push ∨
+     (srcUpd w c sattr dattr delay plain s0).push = s0.push ++ [((c.seid, sattr), c.dst, delay, (c.deid, dattr))]) := by
+  unfold srcUpd
+  simp only
+  cases c.init.lookup sattr <;> simp only <;> (repeat' split) <;> simp
+
 /-- an accepted attribute pair is a `Step` -/
 theorem connectOne_step {w w' : World} {c : ConnectCall} {sa da : Nat}
     (hs : c.src < w.sims.length) (hd : c.dst < w.sims.length) (h : w.connectOne c sa da = .ok w') :
@@ -469,9 +569,11 @@ theorem connectOne_step {w w' : World} {c : ConnectCall} {sa da : Nat}
   injection h with h
   refine ⟨delay, dmin, hdelay, hdmin, ?_⟩
   obtain ⟨dI, dT, dR, dD, dN, dA⟩ := dstUpd_fields w c sa da delay dmin
-  generalize hD : dstUpd w c sa da delay dmin = D at h dI dT dR dD dN dA
+  obtain ⟨dP, dPl⟩ := dstUpd_pp w c sa da delay dmin
+  generalize hD : dstUpd w c sa da delay dmin = D at h dI dT dR dD dN dA dP dPl
   obtain ⟨sI, sT, sR, sD, sN, sA⟩ := srcUpd_fields w c sa da delay plain ((w.setSim c.dst D).sim c.src)
-  generalize hS : srcUpd w c sa da delay plain ((w.setSim c.dst D).sim c.src) = S at h sI sT sR sD sN sA
+  obtain ⟨sPl, sP⟩ := srcUpd_pp w c sa da delay plain ((w.setSim c.dst D).sim c.src)
+  generalize hS : srcUpd w c sa da delay plain ((w.setSim c.dst D).sim c.src) = S at h sI sT sR sD sN sA sPl sP
   have e1 : ∀ q, (w.setSim c.dst D).sim q = if q = c.dst then D else w.sim q := by
     intro q; rw [sim_setSim]; simp [hd]
   have e2 : ∀ q, w'.sim q = if q = c.src then S else (w.setSim c.dst D).sim q := by
@@ -501,7 +603,35 @@ theorem connectOne_step {w w' : World} {c : ConnectCall} {sa da : Nat}
     intro q; rw [e1]; split
     · rename_i hq; rw [hq]; exact dI
     · rfl
-  refine ⟨by rw [← h]; rfl, by rw [← h]; simp, ?_, ?_, ?_, ?_, ?_, ?_, ?_⟩
+  have gP : ∀ q, ((w.setSim c.dst D).sim q).push = (w.sim q).push := by
+    intro q; rw [e1]; split
+    · rename_i hq; rw [hq]; exact dP
+    · rfl
+  have gPl : ∀ q, ((w.setSim c.dst D).sim q).pulled = (w.sim q).pulled ∨
+      (q = c.dst ∧ ((w.setSim c.dst D).sim q).pulled = (w.sim q).pulled ++ [(c.src, delay, (c.seid, sa), (c.deid, da))]) := by
+    intro q; rw [e1]; split
+    · rename_i hq; rw [hq]
+      rcases dPl with hh | hh
+      · exact Or.inl hh
+      · exact Or.inr ⟨rfl, hh⟩
+    · exact Or.inl rfl
+  refine ⟨by rw [← h]; rfl, by rw [← h]; simp, ?_, ?_, ?_, ?_, ?_, ?_, ?_, ?_, ?_⟩
+  rotate_right 2
+  · intro p; rw [e2]; split
+    · rename_i hp
+      rcases sP with hh | hh
+      · left; rw [hh, hp]; exact gP _
+      · right; refine ⟨hp, (c.deid, da), ?_⟩; rw [hh, hp, gP]
+    · exact Or.inl (gP p)
+  · intro p; rw [e2]; split
+    · rename_i hp
+      rw [sPl, hp]
+      rcases gPl c.src with hh | ⟨hh1, hh2⟩
+      · exact Or.inl hh
+      · exact Or.inr ⟨hh1, (c.deid, da), hh2⟩
+    · rcases gPl p with hh | ⟨hh1, hh2⟩
+      · exact Or.inl hh
+      · exact Or.inr ⟨hh1, (c.deid, da), hh2⟩
   · intro p; rw [e2]; split
     · rename_i hp; rw [hp, sD]; exact gD _
     · exact gD p
@@ -540,6 +670,7 @@ theorem connectAsync_builtOk {w : World} (h : BuiltOk w) {src dst : Sid} (hs : s
   have sF : S.inputDelays = (w.sim src).inputDelays ∧ S.triggers = (w.sim src).triggers ∧ S.outReq = (w.sim src).outReq ∧
       S.depth = (w.sim src).depth ∧ S.next0 = (w.sim src).next0 ∧ S.trigAnc = (w.sim src).trigAnc := by
     subst hS; exact ⟨rfl, rfl, rfl, rfl, rfl, rfl⟩
+  have sF2 : S.push = (w.sim src).push ∧ S.pulled = (w.sim src).pulled := by subst hS; exact ⟨rfl, rfl⟩
   obtain ⟨sI, sT, sR, sD, sN, sA⟩ := sF
   have e1 : ∀ q, (w.setSim src S).sim q = if q = src then S else w.sim q := by
     intro q; rw [sim_setSim]; simp [hs]
@@ -549,7 +680,11 @@ theorem connectAsync_builtOk {w : World} (h : BuiltOk w) {src dst : Sid} (hs : s
     intro q; rw [e1]; split
     · rename_i hq; rw [hq]; exact ⟨sI, sT, sR, sD, sN, sA⟩
     · exact ⟨rfl, rfl, rfl, rfl, rfl, rfl⟩
-  generalize hw1 : w.setSim src S = w1 at e1 g
+  have g2 : ∀ q, ((w.setSim src S).sim q).push = (w.sim q).push ∧ ((w.setSim src S).sim q).pulled = (w.sim q).pulled := by
+    intro q; rw [e1]; split
+    · rename_i hq; rw [hq]; exact sF2
+    · exact ⟨rfl, rfl⟩
+  generalize hw1 : w.setSim src S = w1 at e1 g g2
   have hlen1 : w1.sims.length = w.sims.length := by rw [← hw1]; simp
   have hdecl1 : w1.decls = w.decls := by rw [← hw1]; rfl
   have e2 : ∀ q, (w1.setSim dst { w1.sim dst with inputDelays := insertTI (w1.sim dst).inputDelays src delay }).sim q =
@@ -559,7 +694,14 @@ theorem connectAsync_builtOk {w : World} (h : BuiltOk w) {src dst : Sid} (hs : s
   · intro old hold
     have := (h.inShape dst hd (src, old) (lookupTI_mem hold)).2
     exact hz _ (this.2.1.trans hshape.2.1.symm)
-  · refine ⟨by simp [hdecl1], by simp [hlen1], ?_, ?_, ?_, ?_, ?_, ?_, ?_⟩
+  · refine ⟨by simp [hdecl1], by simp [hlen1], ?_, ?_, ?_, ?_, ?_, ?_, ?_, ?_, ?_⟩
+    rotate_right 2
+    · intro p; left; rw [e2]; split
+      · rename_i hp; rw [hp]; exact (g2 dst).1
+      · exact (g2 p).1
+    · intro p; left; rw [e2]; split
+      · rename_i hp; rw [hp]; exact (g2 dst).2
+      · exact (g2 p).2
     · intro p; rw [e2]; split
       · rename_i hp; rw [hp]; exact (g dst).2.2.2.1
       · exact (g p).2.2.2.1
